@@ -6,6 +6,8 @@ cd "$(dirname "$0")"
 PAT=${1:-.}
 one() {
   declare -A CHECKS=( [G1]="C01 C10 C11 C09 C20" [G2]="C09 C20 C11 C10 C01" [G3]="C02 C19 C10 C13 C01" [G4]="C03 C04 C07 C17 C12 C13 C14" [G5]="C05 C08 C16 C14 C01 C20" [G6]="C12 C13 C14 C03 C04 C15" [G7]="C15 C18 C06 C14 C16 C13" )
+  # BENIGN_SHORT=1: the three checks closest to the files the group touches
+  [ -n "${BENIGN_SHORT:-}" ] && CHECKS=( [G1]="C01 C11 C10" [G2]="C09 C11 C20" [G3]="C02 C19 C01" [G4]="C03 C04 C07" [G5]="C05 C08 C01" [G6]="C12 C14 C03" [G7]="C15 C18 C06" )
   d=$1; s=$(basename $d); g=${s%%-*}
   p=$d/patch.diff; [ -f $d/patch.rebased.diff ] && p=$d/patch.rebased.diff
   ./benigntest.sh $(pwd)/$p ${CHECKS[$g]} 2>&1 | sed "s/^patch does not apply/$s - patch does not apply/"
